@@ -128,6 +128,10 @@ def _null_return_blocks(fn):
 
 def _err_blocks(fn):
     out = set(flow.failure_blocks(fn))
+    # an Err built for a local that the function then propagates (`helper()?` after the helper was folded in)
+    for bi, si, lhs, rv, st in fn.assignments():
+        if bi in fn.live and isinstance(rv, dict) and rv.get("k") == "agg" and str(rv.get("adt", "")).endswith("result::Result") and rv.get("variant") == "Err":
+            out.add(bi)
     return out
 
 
